@@ -95,7 +95,7 @@ struct C02 : Profile {
            "enumerated by consecutive run numbers. Programs include statements that re-type variables, '$' constrained names, loops whose body assigns the iterator from an opaque "
            "function result of another type, typed and opaque function parameters. Oracle: when the whole unit compiles and runs without error every grouping gives the same "
            "output, outcome and final variable store; at every statement step each symbol under a type constraint holds a value of its major type; monitor (reported, not a "
-           "schedule): for every top-level expression of the program and a catalogue of 140 built-in/operator/member expressions, Expression::type in parsing mode == type of the "
+           "schedule): for every top-level expression of the program and a catalogue of 140 built-in/operator/member expressions and an operand matrix (15 binary operators and 7 two-argument built-ins over 8 variables of known type holding boundary values, 11 unary forms), Expression::type in parsing mode == type of the "
            "evaluated value unless opaque. Non-trivial = the grouping has at least two units; distinct = distinct event-trace hash.";
   }
   json components() const override { return json{{"real", {"Parser::parse", "Parser::parseStatement (interactive)", "Context::registerSymbol/parsingEnd (symbol type view)", "Context::storeVariable (value type view)", "Symbol::check_safety", "Expression::type of every operator/builtin/member"}}, {"stub", json::array()}}; }
@@ -115,6 +115,13 @@ struct C02 : Profile {
       "function anyv(k) return undefined is\nbegin\n  if k == 1 then\n    return \"s\";\n  end if;\n  return 7;\nend;\n", "av = anyv(0);\nprint av + 1;\n", "av = anyv(1);\nprint av + \"x\";\n",
       "tq = tab(2, 1);\ntq = tab(2, \"s\");\nprint tq.at(0) + \"!\";\n", "uq = tup(1, \"a\");\nuq = tup(\"b\", 2);\nprint uq@1 + \"c\";\n", "nn = int();\nnn = 5;\nprint nn + 1;\n", "mm:string;\nmm = \"x\";\nprint mm;\n",
       "for lq in 1 to 2 loop\n  lq2 = lq * 2;\nend loop;\nlq = \"after\";\nprint lq;\n", "tz = tab(2, 3);\nforall ez in tz loop\n  ez = ez + 1;\nend loop;\nez = \"after\";\nprint ez tz.at(0);\n" };
+    // a compound statement whose never-executed branch re-types an existing variable twice, then separately compiled uses of the variable
+    static const char* DEAD[] = {
+      "dr = 1;\n", "if dr > 5 then\n  dr = \"big\";\n  print dr;\n  dr = 2.5;\nend if;\n", "print dr + 1;\n", "dq = dr * 2;\nprint dq;\n",
+      "ds = \"s\";\n", "while ds == \"never\" loop\n  ds = 1;\n  ds = tab(1, 2);\n  ds = true;\nend loop;\n", "print ds + \"!\";\n" };
+    // operands of the static-vs-dynamic monitor: the compile-time type is known, the value is not
+    st.insert(st.begin(), "ma = (-2);\nmb = 3;\nmc = 0;\nmd = (-0.5);\nme = 2.0;\nmf = 1;\nmg = 40;\nmh = 0.0;\n");
+    if (g.chance(0.4)) { if (g.chance(0.5)) for (int i = 0; i < 4; ++i) st.push_back(DEAD[i]); else for (int i = 4; i < 7; ++i) st.push_back(DEAD[i]); }
     int ne = (int)g.range(2, 6);
     st.push_back(EXTRA[4]);   // the opaque function is declared once, in front of its uses
     for (int i = 0; i < ne; ++i) { size_t c = g.below(13); if (c == 4) continue; st.push_back(EXTRA[c]); }
@@ -131,6 +138,17 @@ struct C02 : Profile {
     std::vector<std::string> ex; collect_exprs(p.ast, ex);
     json ej = json::array(); for (size_t i = 0; i < ex.size() && i < 40; ++i) ej.push_back(enc(ex[i]));
     for (int i = 0; i < 12; ++i) ej.push_back(BUILTIN_EXPRS[(group * 12 + i) % (sizeof(BUILTIN_EXPRS) / sizeof(BUILTIN_EXPRS[0]))]);
+    { // operand matrix: every binary operator and two-argument built-in over variables of known compile-time type (integer / decimal) and boundary values, 30 per group in rotation
+      static const char* OPS[] = {"+", "-", "*", "/", "%", "**", "power", "&", "|", "^", "<<", ">>", "==", "<", ">="};
+      static const char* FN2[] = {"pow", "mod", "max", "min", "atan2", "round", "hash"};
+      static const char* FN1[] = {"abs", "sign", "floor", "ceil", "round", "int", "num", "sqrt", "exp", "-", "~"};
+      static const char* VARS[] = {"ma", "mb", "mc", "md", "me", "mf", "mg", "mh"};
+      std::vector<std::string> M;
+      for (const char* o : OPS) for (const char* x : VARS) for (const char* y : VARS) M.push_back(std::string(x) + " " + o + " " + y);
+      for (const char* f : FN2) for (const char* x : VARS) for (const char* y : VARS) M.push_back(std::string(f) + "(" + x + ", " + y + ")");
+      for (const char* f : FN1) for (const char* x : VARS) M.push_back(f[1] ? std::string(f) + "(" + x + ")" : std::string(f) + x);
+      for (int i = 0; i < 30; ++i) ej.push_back(M[(group * 30 + i) % M.size()]);
+    }
     plan["exprs"] = ej;
     return plan;
   }
